@@ -14,6 +14,8 @@
                transactions and every read transaction deviating from the baseline are judged by the Lean driver as above
   tables     : Generated/Globals.lean also lists, per package-level variable, type / mutable / the functions handing it out,
                and every escaping function literal with the captured variables it writes: `no_shared_mutable_escape`
+  sq cases   : filter texts with explicit skip and limit parsed once per round, the compiled query run by several read
+               transactions released together (first use of every node is concurrent); judged like cr, and run under -race
   probe      : one compiled ast.Query shared by goroutines (setPaging stores default skip/limit nodes in it) —
                outside the property's wording, reported in the evidence, never a violation.
 """
@@ -29,13 +31,21 @@ THEOREMS = ["read_sees_one_version", "one_version_per_read_tx", "all_or_nothing_
             "model_logs_pass_check", "paged_query_is_page_of_all",
             "no_unsynchronised_global_writes", "global_table_anchors",
             "no_shared_mutable_escape", "shared_escape_meaning", "escape_table_anchors",
-            "no_append_onto_shared_slice", "append_table_meaning", "append_table_anchors"]
+            "no_append_onto_shared_slice", "append_table_meaning", "append_table_anchors",
+            "eval_does_not_write_nodes", "node_write_table_meaning", "node_write_table_anchors",
+            "no_process_wide_config_calls", "config_call_table_meaning",
+            "remove_before_delivers_only_to_own", "listener_discipline_pinned", "every_parse_delivers_only_to_own",
+            "pooled_parser_carries_no_collector"]
 TABLE_OBLIGATIONS = ["no_unsynchronised_global_writes (Generated/Globals.lean, regenerated from the package-level vars of zitiql/ast/boltz/objectz)",
                      "global_table_anchors (same table)",
                      "no_shared_mutable_escape (same file: escapes of mutable package-level variables + captured writes of escaping function literals)",
                      "escape_table_anchors (same tables)",
                      "no_append_onto_shared_slice (same file: every append whose first argument is / may alias a slice kept in a struct field or package variable)",
-                     "append_table_anchors (same table)"]
+                     "append_table_anchors (same table)",
+                     "eval_does_not_write_nodes (same file: writes to receiver state in methods of ast node types, by phase)",
+                     "node_write_table_anchors (same table)",
+                     "listener_discipline_pinned (same file: what zitiql.parse does with the error listeners of the pooled parser and lexer)",
+                     "no_process_wide_config_calls (same file: calls into other modules that set process-wide state, assignments to their package variables)"]
 
 RULE = ("mv: seeded random writer histories of 4..17 (quick) / 4..27 (thorough) transactions, each 1-4 operations "
         "(create-or-update of name/rank/roles, delete, SetLinks) over 6 things x 3 groups, 1 in 6 aborted; 2-5 reader "
@@ -55,9 +65,14 @@ RULE = ("mv: seeded random writer histories of 4..17 (quick) / 4..27 (thorough) 
         "Round 3: filters on nested elements of two map symbols (tags under ext/meta: site.name, site.zone, owner.name, a.b.c; attrs under "
         "ext/meta/deep: a.b.c, a.x.c, site.name, owner.name), different readers using different nested keys; GetSymbol(A), GetSymbol(B), "
         "A.Eval, B.Eval on one row (I). "
-        "race: 7 scenarios x 6 goroutines under the race detector + 2 mv + 4 cr cases")
+        "Round 4, sq: rows and history as for cr; 14 filter texts with explicit skip and limit (in [...] over string / int / float "
+        "arrays, between, icontains, set functions, composite set symbol, sub-query with own paging, external + map symbol, negation, "
+        "sorting scanner) each parsed ONCE per round and the compiled query run by 3-5 readers released together, 30 (quick) / 100 "
+        "(thorough) rounds; recorded and judged as for cr. The parse race scenario also goes through zitiql.ParseWithDebug(true/false), "
+        "zitiql.Parse and ast.Parse with ast.EnableQueryDebug toggled, on valid and invalid inputs. "
+        "race: 8 scenarios x 6 goroutines under the race detector + 2 mv + 4 cr cases")
 
-MATCHERS = {}
+MATCHERS = {}   # no open finding (debug-parse-stale-listener was repaired by 956c2a8)
 REVIEWED_APPENDS = {("boltz", "NewBaseStore", "definition.BasePath")}   # = C18/Globals.lean reviewedAppends
 
 
@@ -120,17 +135,44 @@ def build_race(ctx):
 
 
 def trim_report(text):
-    """one race report, shortened to the frames that identify it"""
-    keep = []
+    """one race report, shortened to the frames that identify it: the head of each section (the access, the previous
+    access, the two goroutines), consecutive repeats of a frame dropped"""
+    sections, cur = [], []
     for l in text.splitlines():
+        if (l.startswith("Previous") or l.startswith("Goroutine")) and cur:
+            sections.append(cur)
+            cur = []
         if l.startswith("WARNING") or l.startswith("Read at") or l.startswith("Write at") or l.startswith("Previous") \
                 or l.startswith("Goroutine") or "fatal error" in l:
-            keep.append(l.strip())
+            cur.append(l.strip())
         elif l.startswith("  ") and not l.startswith("      "):
-            keep.append(l.rstrip())
+            cur.append(l.rstrip())
         elif l.startswith("      "):
-            keep.append("      " + l.strip().split(" +0x")[0])
-    return "\n".join(keep[:60])
+            cur.append("      " + l.strip().split(" +0x")[0])
+    if cur:
+        sections.append(cur)
+    keep = []
+    for sec in sections:
+        out, seen = [], set()
+        k = 0
+        while k < len(sec):
+            frame = tuple(sec[k:k + 2]) if sec[k].startswith("  ") and not sec[k].startswith("      ") else (sec[k],)
+            if frame not in seen:
+                seen.add(frame)
+                out.extend(frame)
+            k += len(frame)
+        keep.extend(out[:31])
+    return "\n".join(keep[:110])
+
+
+def _first_frames(report):
+    """the innermost frame of the access and of the previous access"""
+    fr = []
+    ls = report.splitlines()
+    for k, l in enumerate(ls):
+        if (l.startswith("Read at") or l.startswith("Write at") or l.startswith("Previous")) and k + 1 < len(ls):
+            fr.append(ls[k + 1].strip())
+    return fr
 
 
 def race_run(ctx, race_bin, case, tag):
@@ -163,7 +205,7 @@ def nontrivial_keys(case, impl):
         return set()
     final = f[0][1:]
     keys = set()
-    if case.startswith("cr "):
+    if case.startswith("cr ") or case.startswith("sq "):
         for tok in f[1:]:
             p = tok.split(":")
             if len(p) == 4 and not p[0].startswith("s.") and any(not r.endswith("=-") for r in p[3].split("|")):
@@ -182,11 +224,11 @@ def histogram(lines, impl):
     h = collections.Counter()
     for l, a in zip(lines, impl):
         f = l.split(" ")
-        if f[0] in ("mv", "cr"):
+        if f[0] in ("mv", "cr", "sq"):
             h[f[0] + " readers=" + f[1]] += 1
             if f[0] == "cr":
                 h["cr focus=" + f[4]] += 1
-            for t in (f[4:] if f[0] == "mv" else f[5:]):
+            for t in (f[5:] if f[0] == "cr" else f[4:]):
                 h["tx:" + ("commit" if t[0] == "c" else "abort")] += 1
                 for op in t[2:].split("/"):
                     if op:
@@ -206,7 +248,7 @@ def run(ctx, replay_cases=None):
     ctx.assumptions += [
         "bbolt read transactions are MVCC snapshots of the newest committed state at Begin, a write transaction's changes become visible atomically at commit and never on rollback (this IS the Mvcc model; it is assumed of bbolt and exercised by every mv case)",
         "absence of data races is a property of the Go memory model and the scheduler: it is not proved; the table obligation sees only assignments / element writes / address-taking of package-level variables in function bodies of the four packages (not writes through aliases created elsewhere, not library internals such as the ANTLR runtime's shared DFA caches or strings.Replacer), and the race detector sees only the schedules that happened",
-        "one compiled ast.Query value obtained by ONE ast.Parse call is not shared between goroutines by the caller (setPaging writes default skip/limit into it; examined as a probe, outside the property's wording); two separate Parse calls returning the same object is a defect and is searched for (observation kinds A/P/Q, no_shared_mutable_escape)",
+        "a compiled ast.Query whose skip or limit is IMPLICIT is not shared between goroutines by the caller (setPaging writes the defaults into it; examined as a probe, outside the property's wording); a compiled query with explicit skip and limit is read-only under evaluation and IS covered (sq cases, eval_does_not_write_nodes); two separate Parse calls returning the same object is a defect and is searched for (observation kinds A/P/Q, no_shared_mutable_escape)",
         "the escape / closure tables are syntactic (go/parser): aliases are followed inside one function only, function literals passed as call arguments are not listed, types of other modules are opaque",
     ]
     with common.Lock():
@@ -230,7 +272,7 @@ def run(ctx, replay_cases=None):
         lines = replay_cases
     else:
         lines = common.corpus_cases("c18") + [l for l in common.gen_cases(ctx, "c18").split("\n") if l]
-    mv_lines = [l for l in lines if l.startswith("mv ") or l.startswith("cr ")]
+    mv_lines = [l for l in lines if l.startswith("mv ") or l.startswith("cr ") or l.startswith("sq ")]
     race_lines = [l for l in lines if l.startswith("race ")]
 
     # ---- isolation: reader logs against the model on the tagged version
@@ -256,32 +298,36 @@ def run(ctx, replay_cases=None):
 
     # ---- race search
     reports = []   # (case, report)
+    known_reports = []   # reports that are a known finding
     race_out = []
     probe = None
     if race_bin is not None:
-        extra = ([l for l in mv_lines if l.startswith("mv ")][:2] + [l for l in mv_lines if l.startswith("cr ")][:4]) if replay_cases is None else []
-        # one process per case; three at a time (each has 4-6 busy goroutines)
+        extra = ([l for l in mv_lines if l.startswith("mv ")][:2] + [l for l in mv_lines if l.startswith("cr ")][:4] + [l for l in mv_lines if l.startswith("sq ")][:2]) if replay_cases is None else []
+        # one process per case; four at a time (each has 4-6 busy goroutines)
         from concurrent.futures import ThreadPoolExecutor
         todo = list(enumerate(race_lines + extra))
-        with ThreadPoolExecutor(max_workers=3) as pool:
+        with ThreadPoolExecutor(max_workers=4) as pool:
             results = list(pool.map(lambda jc: race_run(ctx, race_bin, jc[1], f"c{jc[0]}"), todo))
         for (j, case), (out, reps) in zip(todo, results):
             race_out.append((case, out[:80]))
             if ctx.replay_mode:
                 print(json.dumps({"case": case, "impl": out[:200], "race_reports": reps}, indent=1), flush=True)
-            for r in reps:
-                if in_storage(r):
-                    reports.append((case, r))
+            found = [r for r in reps if in_storage(r)]
             if case.startswith("race ") and out not in ("done",) and not reps:
-                reports.append((case, "harness reported: " + out[:300]))
+                found.append("harness reported: " + out[:300])
+            for r in found:
+                if common.classify(ctx, MATCHERS, case, {"report": r}) is None:
+                    reports.append((case, r))
+                else:
+                    known_reports.append((case, r))
         if replay_cases is None:
             pcase = "race sharedquery 4 30"
             out, reps = race_run(ctx, race_bin, pcase, "probe")
             probe = {"case": pcase, "race_reports": len(reps),
                      "first_report": reps[0] if reps else None,
-                     "verdict": "outside the property's wording (a compiled ast.Query is a mutable object: setPaging stores default skip/limit nodes in it); reported, not counted"}
-    ctx.obligation("race search: no data-race report in concurrent ast.Parse / Store.GetSymbol / Is*Error helpers / parse+query under a writer / external-symbol filters / empty filter with per-reader paging / nested map-symbol filters (race detector; search only)",
-                   not reports, f"{len(reports)} report(s)")
+                     "verdict": "outside the property's wording: the probe query has IMPLICIT paging, so setPaging stores default skip/limit nodes in it; reported, not counted (explicit paging is covered by the sq cases)"}
+    ctx.obligation("race search: no data-race report in concurrent ast.Parse / Store.GetSymbol / Is*Error helpers / parse+query under a writer / external-symbol filters / empty filter with per-reader paging / nested map-symbol filters / one compiled query with explicit paging run by several read transactions / debug and diagnostic parse entry points (race detector; search only)",
+                   not reports, f"{len(reports)} new report(s), {len(known_reports)} report(s) of known findings")
 
     ctx.coverage.update({
         "evaluations": n + len(race_lines),
@@ -291,7 +337,8 @@ def run(ctx, replay_cases=None):
                     for i in sorted(set([0, n // 2, n - 1])) if 0 <= i < n] + [{"case": c, "impl": o} for c, o in race_out[:4]],
         "input_distribution": histogram(mv_lines, impl) if n else {},
         "read_transactions_checked": recorded,
-        "race_search": {"binary_built": race_bin is not None, "cases": [c for c, _ in race_out], "reports": len(reports)},
+        "race_search": {"binary_built": race_bin is not None, "cases": [c for c, _ in race_out], "reports": len(reports),
+                        "known_finding_reports": [{"case": c, "report": r[:1500]} for c, r in known_reports[:2]]},
         "shared_compiled_query_probe": probe,
         "impl_vs_spec_disagreements": len(bad),
         "impl_vs_model_disagreements": len(bad),
@@ -328,7 +375,7 @@ def _offenders():
     except (OSError, ValueError):
         return None
     res = []
-    for g in facts.get("globals", []):
+    for g in (facts.get("globals") or []):
         if g["kind"] != "plain":
             continue
         ws = [w for w in (g.get("writes") or []) if not (w["inInit"] or w["underLock"])]
@@ -345,15 +392,26 @@ def _escape_offenders():
     except (OSError, ValueError):
         return None
     res = []
-    for g in facts.get("globals", []):
+    for g in (facts.get("globals") or []):
         if g["kind"] == "plain" and g.get("mutable") and g.get("escapes"):
             res.append({"var": g["pkg"] + "." + g["name"], "decl": g["decl"], "type": g.get("type"), "mutable_because": g.get("mutableWhy"),
                         "handed_out_by": [f'{e["func"]} ({e["how"]}) at {e["pos"]}' for e in g["escapes"]]})
-    for a in facts.get("appends", []):
+    for a in (facts.get("appends") or []):
         if a["how"] == "ontoShared" and not (a["pkg"], a["func"], a["operand"]) in REVIEWED_APPENDS:
             res.append({"append_onto_stored_slice": a["pkg"] + "." + a["func"], "operand": a["operand"], "via_local": a.get("via"),
                         "result": a.get("dest"), "at": a["pos"]})
-    for c in facts.get("closures", []):
+    for w in (facts.get("nodeWrites") or []):
+        if w["phase"] == "eval":
+            res.append({"node_state_written_during_evaluation": w["type"] + "." + w["method"], "field": w["field"], "at": w["pos"]})
+    for c in (facts.get("configCalls") or []):
+        if not c["inInit"]:
+            res.append({"process_wide_config_call": c["callee"], "in": c["pkg"] + "." + c["func"], "at": c["pos"]})
+    for l in (facts.get("listeners") or []):
+        need = ["removeBeforeAlways", "addsCollector"] + (["removeAfterDeferred"] if l["recogniser"] == "parser" else [])
+        missing = [k for k in need if not l.get(k)]
+        if missing or (l["recogniser"] == "parser" and l.get("removeBeforePlain")):
+            res.append({"listener_discipline_of_zitiql_parse": l["recogniser"], "var": l.get("var"), "missing": missing, "found": l})
+    for c in (facts.get("closures") or []):
         ws = [w for w in (c.get("writes") or []) if not w["underLock"]]
         if ws:
             res.append({"closure_in": c["pkg"] + "." + c["func"], "at": c["pos"], "escape": c["escape"],
